@@ -3,8 +3,8 @@
 import json, sys
 
 BASELINE_OFF = ("export GOFLAGS=-mod=mod GOPROXY=off GOSUMDB=off GOTOOLCHAIN=local; "
-    "for m in dnsrocks dnsrocks/go-cdb-mods; do (cd /repo/$m && cp go.mod /tmp/.vp_go.mod.$$ && cp go.sum /tmp/.vp_go.sum.$$ 2>/dev/null; "
-    "go test -mod=mod -json -vet=off -count=1 -timeout 25m ./...; rc=$?; cp /tmp/.vp_go.mod.$$ go.mod; cp /tmp/.vp_go.sum.$$ go.sum 2>/dev/null; rm -f /tmp/.vp_go.mod.$$ /tmp/.vp_go.sum.$$; exit $rc) || exit 1; done")
+    "for m in dnsrocks dnsrocks/go-cdb-mods; do (cd /repo/$m && go test -mod=mod -json -vet=off -count=1 -timeout 25m ./...); done; "
+    "git -C /repo checkout -- dnsrocks/go.mod dnsrocks/go.sum dnsrocks/go-cdb-mods/go.mod 2>/dev/null; true")
 
 TECH = "bounded symbolic execution of the real Go SSA (own executor gosym) + SMT (z3 5.1/4.8.12, cvc5 fall-back); counterexamples replayed natively"
 
